@@ -1557,6 +1557,17 @@ fn field_values(width: u8, actual: u64) -> Vec<u64> {
 			v.push(*m);
 		}
 	}
+	if width == 8 {
+		// the ends of the calendar the header timestamp is decoded into (and a day / an hour / a second inside
+		// and outside of them): arithmetic on a decoded time may leave the representable range
+		let lo = chrono::NaiveDate::MIN.and_hms_opt(0, 0, 0).unwrap().and_utc().timestamp();
+		let hi = chrono::NaiveDate::MAX.and_hms_opt(0, 0, 0).unwrap().and_utc().timestamp();
+		for b in [lo, hi] {
+			for d in [-86_400i64, -3_600, -1, 0, 1, 3_600, 86_399, 86_400] {
+				v.push(b.wrapping_add(d) as u64);
+			}
+		}
+	}
 	let mut seen = HashSet::new();
 	v.retain(|x| *x != actual && seen.insert(*x));
 	v
